@@ -209,7 +209,9 @@ def check_split(case):
     unit = case.get('unit', 'h')
     k = {'h': 1., 'd': 24.}[unit]
     w = case.get('wacc', 0.)
-    tg = eao.assets.Timegrid(start, end, freq=case['freq'], main_time_unit=unit)
+    tg = eao.assets.Timegrid(start, end, freq=case['freq'], main_time_unit=unit, timezone=case.get('tz'))
+    if case.get('tz'):
+        start, end = tg.start, tg.end
     rng = np.random.RandomState(case['pseed'])
     price = rng.uniform(1, 20, tg.T).round(2)
     n1, n2 = eao.assets.Node('a'), eao.assets.Node('b')
@@ -763,12 +765,20 @@ def check_uc(case):
                 if rows.any():
                     lhs = A[rows, :] @ x
                     cons.append(lhs <= op.b[rows] if rel == '<=' else (lhs >= op.b[rows] if rel == '>=' else lhs == op.b[rows]))
-            prob = cp.Problem(cp.Minimize(0), cons)
+            # fewest start flags the formulation admits with this pattern: must be the number of off-to-on transitions
+            st_idx = [int(i) for i in m[m['var_name'] == 'bool_start'].index]
+            prob = cp.Problem(cp.Minimize(sum(x[j] for j in st_idx) if st_idx else 0), cons)
             try:
                 prob.solve(solver='SCIP')
             except Exception:
                 prob.solve()
             feasible = prob.status in ('optimal', 'optimal_inaccurate')
+            if feasible and st_idx:
+                prev = [1 if case['tar'] > 0 else 0] + list(pattern[:-1])
+                trans = sum(1 for t in range(T) if pattern[t] == 1 and prev[t] == 0)
+                if abs(float(prob.value) - trans) > 1e-6:
+                    out.append(fail('C06.start.flagged_exactly_at_off_to_on_transitions', 'assets:CHPAsset.setup_optim_problem', case,
+                                    dict(case, pattern=list(pattern)), f'pattern {pattern}: at least {prob.value} start flags are forced, the pattern has {trans} off-to-on transitions'))
         want = uc_reference(pattern, T, case['mr'], case['md'], case['tar'], case['tao'])
         if feasible != want:
             out.append(fail('C06.patterns.admissible_iff_runtime_downtime_initial_state', 'assets:CHPAsset.setup_optim_problem', case,
@@ -806,6 +816,12 @@ def check_scaled(case):
             inner = eao.portfolio.Portfolio([eao.assets.SimpleContract(name='src', nodes=inner_node, price='fix', min_cap=0., max_cap=3. * f),
                                              eao.assets.Transport(name='pipe', nodes=[inner_node, node], min_cap=0., max_cap=1.5 * f, efficiency=.9)])
             return eao.portfolio.StructuredAsset(name='bat', nodes=node, portfolio=inner, start=pts[ba], end=pts[bb])
+        if case.get('base') == 'orderbook':
+            # an order book whose LAST order lies entirely after the horizon: its variable has no mapping row (C08: inert)
+            late = pts[T] + pd.Timedelta(3, 'h')
+            ob = pd.DataFrame({'start': [pts[0], pts[min(2, T - 1)], late], 'end': [pts[min(3, T)], pts[T], late + pd.Timedelta(2, 'h')],
+                               'capa': [1. * f, -2. * f, 1.5 * f], 'price': [3., 28., 1.]})
+            return eao.assets.OrderBook(name='bat', nodes=node, orders=ob)
         return eao.assets.Storage(name='bat', nodes=node, size=4. * f, cap_in=1. * f, cap_out=1. * f, start=pts[ba], end=pts[bb])
     sc = eao.assets.ScaledAsset(name='sc', base_asset=base(1.), start=pts[a], end=pts[b], min_scale=s, max_scale=s, norm_scale=S, fix_costs=case['rate'])
     mk = eao.assets.SimpleContract(name='m', nodes=node, price='p', min_cap=-10., max_cap=10.)
@@ -821,6 +837,22 @@ def check_scaled(case):
         return out
     dur = float(np.sum(tg.dt[a:b]))
     want = res2.value - s * case['rate'] * dur
+    # C07 / C04: the mapping row of the scale names the variable that carries the fix costs; value = sum of the DCF table
+    mp = op.mapping
+    size_rows = mp[(mp['asset'] == 'sc') & (mp['type'] == 'size')]
+    n_sc = len(sc.setup_optim_problem(prices_, tg).c)
+    off = 0 if [x.name for x in eao.portfolio.Portfolio([sc, mk]).assets][0] == 'sc' else None
+    if len(size_rows) != 1 or (off is not None and int(size_rows.index[0]) != off + n_sc - 1) or \
+            abs(float(op.c[int(size_rows.index[0])]) - case['rate'] * dur) > 1e-9:
+        out.append(fail('C07.scaled.scale_row_names_the_scale_variable', 'assets:ScaledAsset.setup_optim_problem', case, dict(case),
+                        f'mapping row of the scale points to variable {list(size_rows.index)}, the scale is variable {n_sc - 1} (cost {case["rate"] * dur})'))
+    try:
+        o = eao.io.extract_output(eao.portfolio.Portfolio([sc, mk]), op, res, prices_)
+        tot = float(o['DCF'].sum().sum())
+        if abs(tot - res.value) > 1e-6 * max(1., abs(res.value)):
+            out.append(fail('C04.scaled.value_equals_sum_of_dcf', 'assets:ScaledAsset.setup_optim_problem', case, dict(case), f'value {res.value} vs DCF total {tot}'))
+    except Exception as e:
+        out.append(fail('C04.scaled.value_equals_sum_of_dcf', 'assets:ScaledAsset.setup_optim_problem', case, dict(case), f'output raises {type(e).__name__}: {str(e)[:120]}'))
     if abs(res.value - want) > 1e-4 * max(1, abs(want)):
         out.append(fail('C16.scaled.fixed_scale_equals_scaled_base_less_fix_costs', 'assets:ScaledAsset.setup_optim_problem', case, dict(case),
                         f'scaled {res.value} != base with capacities x s/S {res2.value} - s*rate*duration {s * case["rate"] * dur} = {want}'))
@@ -837,6 +869,10 @@ def _hist_assets(eao, rng):
             eao.assets.Storage(name='sto', nodes=A, size=3., cap_in=1., cap_out=1., eff_in=0.9, wacc=rng.choice([0., 0.05]), no_simult_in_out=rng.random() < 0.3),
             eao.assets.Transport(name='tr', nodes=[A, B], min_cap=0., max_cap=2., efficiency=0.9, wacc=rng.choice([0., 0.2])),
             eao.assets.SimpleContract(name='load', nodes=B, min_cap=-1., max_cap=-1., start=t0 + pd.Timedelta(rng.choice([0, 5]), 'h')),
+            # take limits over periods given as naive dates in lists (read anew in the zone of every grid)
+            eao.assets.Contract(name='take', nodes=A, price='q', min_cap=0., max_cap=2., extra_costs=.05,
+                                max_take={'start': [t0 + pd.Timedelta(2, 'h'), t0 + pd.Timedelta(20, 'h')], 'end': [t0 + pd.Timedelta(20, 'h'), t0 + pd.Timedelta(50, 'h')], 'values': [15., 12.]},
+                                min_take={'start': t0 + pd.Timedelta(4, 'h'), 'end': t0 + pd.Timedelta(28, 'h'), 'values': 3.}),
             # two assets with their own coarser frequency, the same window and different waccs; an order book (reads the shared grid's restricted part)
             eao.assets.SimpleContract(name='own1', nodes=A, price='q', min_cap=0., max_cap=1., freq='4h', wacc=.4),
             eao.assets.SimpleContract(name='own2', nodes=A, price='q', min_cap=-1., max_cap=0., extra_costs=.1, freq='4h', wacc=0.),
@@ -1030,6 +1066,8 @@ def check_take(case):
         out.append(fail('C02.take.row_sums_dispatch_of_covered_steps', 'assets:define_restr', case, params, 'row coefficients differ'))
     if len(want_b) and not np.allclose(op.b, want_b, rtol=1e-9):
         out.append(fail('C08.take.prorated_by_covered_duration', 'assets:define_restr', case, params, f'rhs {np.round(op.b, 6).tolist()} expected {np.round(want_b, 6).tolist()}'))
+        # the same clause is part of C02 ("take volumes prorated to the part of the period inside the horizon")
+        out.append(fail('C02.take.volume_prorated_to_the_part_inside_the_horizon', 'assets:define_restr', case, params, f'rhs {np.round(op.b, 6).tolist()} expected {np.round(want_b, 6).tolist()}'))
     if (op.cType or '') != ('L' if kind == 'min' else 'U') * len(want_rows):
         out.append(fail('C02.take.row_type', 'assets:define_restr', case, params, op.cType))
     return out
@@ -1233,6 +1271,9 @@ def _stoch_setup(case):
     if case.get('transport'):
         assets += [eao.assets.Transport(name='t', nodes=[A, B], min_cap=0., max_cap=1.5, efficiency=.9),
                    eao.assets.SimpleContract(name='mb', nodes=B, price='q', min_cap=-1., max_cap=0., extra_costs=.1)]
+    if case.get('plant'):
+        # a unit-commitment plant: boolean variables (on / start) next to variables with several mapping rows (the transport)
+        assets.append(eao.assets.Plant(name='g', nodes=A, min_cap=1., max_cap=2., extra_costs=float(rng.randint(2, 6)), start_costs=float(rng.randint(1, 4)), min_runtime=2))
     if case.get('internal'):
         # future variables that are not of dispatch type: a structured asset with an internal node (type 'i' after wrapping)
         In = eao.assets.Node('inner')
@@ -1305,10 +1346,23 @@ def check_slp(case):
     exp_u = np.concatenate([op.u] + [op.u[fut]] * case['S'])
     if not (np.allclose(op_slp.l, exp_l) and np.allclose(op_slp.u, exp_u)):
         F('C17.slp.bounds_copied_per_sample', 'bounds')
-    res_slp = op_slp.optimize()
+    try:
+        res_slp = op_slp.optimize()
+    except Exception as e:        # noqa: the extended problem cannot even be handed to the solver
+        F('C17.slp.solvable_when_scenarios_are', f'optimising the SLP raised {type(e).__name__}: {e}')
+        return out
     if isinstance(res_slp, str):
         F('C17.slp.solvable_when_scenarios_are', f'SLP {res_slp}')
         return out
+    # the boolean flags of the extended problem sit on copies of boolean variables only (and on every copy)
+    mm = op_slp.mapping
+    if 'bool' in mm.columns:
+        flagged = sorted(set(int(i) for i in mm.index[mm['bool'] == True]))           # noqa: E712
+        b0 = sorted(set(int(i) for i in m0.index[m0['bool'] == True])) if 'bool' in m0.columns else []   # noqa: E712
+        futv = [int(i) for i in first.index[fut]]
+        exp_flag = sorted(set(b0) | {n0 + s * n_f + futv.index(j) for s in range(case['S']) for j in b0 if j in futv})
+        if flagged != exp_flag:
+            F('C17.slp.boolean_flags_on_the_copies_of_boolean_variables', f'flagged variables {flagged}, expected {exp_flag}')
     V = []
     xs = []
     for s in scen:
@@ -1465,7 +1519,16 @@ def check_storage_physics(case):
     rng = random.Random(case['seed'])
     T = case['T']
     start = pd.Timestamp('2021-01-01')
-    tg = eao.assets.Timegrid(start, start + pd.Timedelta(T, 'h'), freq='h')
+    if case.get('grid') == 'MS':
+        # calendar months in main time unit 'd': steps of 28 / 30 / 31 days (rates are per day)
+        start = pd.Timestamp(case.get('grid_start', '2021-02-01'))
+        tg = eao.assets.Timegrid(start, start + pd.DateOffset(months=T), freq='MS', main_time_unit='d')
+    elif case.get('grid') == 'dst':
+        # local days over the daylight-saving switch in main time unit 'h': steps of 24 / 23 (25) hours
+        start = pd.Timestamp(case.get('grid_start', '2021-03-26'))
+        tg = eao.assets.Timegrid(start, start + pd.Timedelta(T, 'd'), freq='d', main_time_unit='h', timezone='CET')
+    else:
+        tg = eao.assets.Timegrid(start, start + pd.Timedelta(T, 'h'), freq='h')
     pts = list(tg.timepoints) + [tg.end]
     A, B = eao.assets.Node('A'), eao.assets.Node('B')
     a, b = case.get('window', (0, T))
@@ -1481,12 +1544,28 @@ def check_storage_physics(case):
     if case.get('order'):
         assets.reverse()
     prices = {'p': np.asarray([float(rng.randint(1, 9)) for _ in range(T)]), 'q': np.asarray([float(rng.randint(1, 9)) for _ in range(T)])}
+    if case.get('hold_from') is not None:
+        # boundary of the holding duration on steps of different length: with a maximum duration of md (a multiple of the length of
+        # step i, not aligned with the later steps) exactly k steps from step i may be held (their total length <= md < that of k + 1);
+        # one step more is tempting (cheapest at step i, price jump after step i + k) but not allowed
+        i0_ = case['hold_from']
+        md_ = float(np.floor(case['md_factor'] * tg.dt[i0_]))
+        k_ = int(np.sum(np.cumsum(tg.dt[i0_:]) <= md_))
+        kw['max_store_duration'] = md_
+        case = dict(case, max_dur=md_)
+        sto = eao.assets.Storage(name='sto', nodes=[A, B] if two else A, **kw)
+        assets = [sto if x.name == 'sto' else x for x in assets]
+        prices['p'] = np.asarray([5. if t < i0_ else (1. + .2 * (t - i0_) if t <= i0_ + k_ else 20. + .1 * t) for t in range(T)])
+    if case.get('price_trend'):
+        # slowly rising prices with one jump: holding from the first steps up to the jump pays -- as long as that is allowed
+        j = case.get('jump', T // 2)
+        prices['p'] = np.asarray([1. + t if t < j else 20. + .1 * t for t in range(T)])
     pf = eao.portfolio.Portfolio(assets)
     op = pf.setup_optim_problem(prices, tg)
     res = op.optimize()
     F = lambda name, detail: out.append(fail(name, 'assets:Storage.setup_optim_problem', case, dict(case), detail))
     n = b - a
-    dt = np.ones(n)
+    dt = np.asarray(tg.dt[a:b], dtype=float)
     infl = kw['inflow'] * dt
     # block structure by the statement: blocks of `block` hours counted from the window start
     if case.get('block'):
@@ -1655,6 +1734,9 @@ def check_chp_ramp_profiles(case):
     pl = eao.assets.Plant(name='pl', nodes=node, min_cap=mn, max_cap=mx, extra_costs=.1, ramp=ramp, start_costs=case.get('start_costs', .5), **kw)
     mk = eao.assets.SimpleContract(name='m', nodes=node, price='p', min_cap=-50., max_cap=50.)
     price = np.asarray([float(rng.choice(case.get('levels', [-3, 2, 8, 12]))) for _ in range(T)])
+    if case.get('off_at') is not None:
+        # attractive prices up to a step with a strongly negative price: the plant is switched off exactly there (also the last step)
+        price = np.asarray([12. if t < case['off_at'] else -40. for t in range(T)])
     assets = [pl, mk] if not case.get('order') else [mk, pl]
     pf = eao.portfolio.Portfolio(assets)
     F = lambda name, detail: out.append(fail(name, 'assets:CHPAsset._add_constraints_for_ramp', case, dict(case), f'{detail} | prices {price.tolist()}'))
@@ -1695,6 +1777,12 @@ def check_chp_ramp_profiles(case):
                 to_off = q - t          # 1 = last running step ... the i-th element of the shutdown profile is i steps before turning off
                 break
         in_shutdown = Ls and to_off is not None and to_off <= Ls
+        if in_shutdown and run >= L:
+            # "i-th element: i steps before turning off" -- the shutdown profile takes precedence over the capacity band, wherever in the
+            # horizon the plant is switched off (also in the very last step)
+            if not (sd[to_off - 1] - tol <= x[t] <= sd[to_off - 1] + tol):
+                F('C06.rampprofile.shutdown_profile_followed', f'step {t} is {to_off - 1} steps before the last running step: output {x[t]} not at the profile value {sd[to_off - 1]} (x {x.round(4).tolist()}, on {on.tolist()})')
+                break
         if run < L:
             if not in_shutdown and not (prof_lo[run] - tol <= x[t] <= prof_up[run] + tol):
                 F('C06.rampprofile.start_profile_followed', f'step {t} is step {run} after the start: output {x[t]} not in [{prof_lo[run]}, {prof_up[run]}] (x {x.round(4).tolist()}, on {on.tolist()}, running before: {tar})')
@@ -1946,12 +2034,12 @@ def check_permutation(case):
     T = case['T']
     start = pd.Timestamp('2021-01-01')
     prices = {'p': np.asarray([float(rng.randint(1, 9)) for _ in range(T)]), 'q': np.asarray([float(rng.randint(1, 9)) for _ in range(T)])}
-    kinds = rng.sample(['spread', 'transport', 'storage', 'coarse1', 'coarse2', 'load', 'orderbook'], rng.randint(3, 6)) + ['market']
+    kinds = rng.sample(['spread', 'transport', 'storage', 'storage2', 'coarse1', 'coarse2', 'load', 'orderbook'], rng.randint(3, 6)) + ['market']
     waccs = {k: rng.choice([0., 0., .2, .6]) for k in kinds}
     if 'coarse1' in kinds and 'coarse2' in kinds:
         waccs['coarse1'], waccs['coarse2'] = .5, 0.
     schemes = [lambda k: k, lambda k: str(kinds.index(k) + 1) * (1 + kinds.index(k) % 3), lambda k: 'a' + '_a' * kinds.index(k)]
-    node_schemes = [lambda n: n, lambda n: {'A': '1', 'B': '11'}[n], lambda n: {'A': 'x', 'B': 'x_x'}[n]]
+    node_schemes = [lambda n: n, lambda n: {'A': '1', 'B': '11'}[n], lambda n: {'A': 'x', 'B': 'x_x'}[n], lambda n: {'A': 'grid_connection', 'B': 'g'}[n]]
 
     def build(order, nm, nn):
         tg = eao.assets.Timegrid(start, start + pd.Timedelta(T, 'h'), freq='h')
@@ -1962,6 +2050,8 @@ def check_permutation(case):
             'spread': lambda: eao.assets.Contract(name=nm('spread'), nodes=B, price='q', extra_costs=.4, min_cap=-2., max_cap=3., wacc=waccs['spread']),
             'transport': lambda: eao.assets.Transport(name=nm('transport'), nodes=[A, B], min_cap=0., max_cap=2., efficiency=.9, costs_const=.1, wacc=waccs['transport']),
             'storage': lambda: eao.assets.Storage(name=nm('storage'), nodes=A, size=3., cap_in=1., cap_out=1.5, eff_in=.9, wacc=waccs['storage']),
+            # charging at one node, discharging at the other
+            'storage2': lambda: eao.assets.Storage(name=nm('storage2'), nodes=[A, B], size=3., cap_in=1., cap_out=1.5, eff_in=.9, wacc=waccs['storage2']),
             # two assets with their OWN (coarser) frequency, the same window and different discount rates
             'coarse1': lambda: eao.assets.SimpleContract(name=nm('coarse1'), nodes=A, price='q', min_cap=0., max_cap=1., freq='2h', wacc=waccs['coarse1']),
             'coarse2': lambda: eao.assets.SimpleContract(name=nm('coarse2'), nodes=A, price='q', min_cap=-1., max_cap=0., extra_costs=.1, freq='2h', wacc=waccs['coarse2']),
@@ -1988,12 +2078,13 @@ def check_permutation(case):
         order = list(kinds)
         rng.shuffle(order)
         sc_ = rng.randrange(3)
-        got = build(order, schemes[sc_], node_schemes[sc_])
+        nsc_ = rng.randrange(len(node_schemes))
+        got = build(order, schemes[sc_], node_schemes[nsc_])
         if got is None:
-            F('C09.same_value_under_renaming_and_permutation', f'order {order} naming scheme {sc_}: not solved')
+            F('C09.same_value_under_renaming_and_permutation', f'order {order} naming scheme {sc_} / node names {nsc_}: not solved')
             continue
         if abs(got[0] - ref[0]) > 1e-5 * max(1., abs(ref[0])):
-            F('C09.same_value_under_renaming_and_permutation', f'order {order} naming scheme {sc_}: value {got[0]} vs {ref[0]}')
+            F('C09.same_value_under_renaming_and_permutation', f'order {order} naming scheme {sc_} / node names {nsc_}: value {got[0]} vs {ref[0]}')
             break
     return out
 
@@ -2040,20 +2131,33 @@ def check_periodic_kinds(case):
     A, B = eao.assets.Node('A'), eao.assets.Node('B')
     prices = {'p': np.asarray([float(rng.randint(1, 9)) for _ in range(T)]), 'q': np.asarray([float(rng.randint(1, 9)) for _ in range(T)])}
     per, dur = 'd', case['duration']
+    # limits that differ from step to step (given like a price series), on one side or on both: "limits ... averaged over the merged steps"
+    vary = case.get('vary')
+    step_h_ = pd.Timedelta(case['freq']) / pd.Timedelta(1, 'h')
+    per_steps_ = int(round(24 / step_h_))
+    dur_steps_ = None if dur is None else int(round(pd.Timedelta(dur) / pd.Timedelta(case['freq'])))
+    grp = [(0 if dur_steps_ is None else t // dur_steps_, t % per_steps_) for t in range(T)]
+
+    def averaged(v):
+        return np.asarray([np.mean([v[s] for s in range(T) if grp[s] == grp[t]]) for t in range(T)])
+    lo_fine = np.asarray([-float(rng.choice([0., .5, 1., 1.5])) for _ in range(T)]) if vary in ('min', 'both') else np.full(T, -1.)
+    up_fine = np.asarray([float(rng.choice([1., 1.5, 2., 3.])) for _ in range(T)]) if vary in ('max', 'both') else np.full(T, 2.)
+    prices_avg = dict(prices, lo=averaged(lo_fine), up=averaged(up_fine))
+    prices = dict(prices, lo=lo_fine, up=up_fine)
 
     def build(periodic):
         kw = dict(periodicity=per, periodicity_duration=dur) if periodic else {}
         kind = case['kind']
         if kind == 'simple':
-            a = eao.assets.SimpleContract(name='x', nodes=B, price='q', min_cap=-1., max_cap=2., **kw)
+            a = eao.assets.SimpleContract(name='x', nodes=B, price='q', min_cap='lo' if vary else -1., max_cap='up' if vary else 2., **kw)
         elif kind == 'spread':
-            a = eao.assets.Contract(name='x', nodes=B, price='q', extra_costs=.5, min_cap=-1., max_cap=2., **kw)
+            a = eao.assets.Contract(name='x', nodes=B, price='q', extra_costs=.5, min_cap='lo' if vary else -1., max_cap='up' if vary else 2., **kw)
         elif kind == 'transport':
             a = eao.assets.Transport(name='x', nodes=[A, B], min_cap=0., max_cap=2., efficiency=.9, costs_const=.1, **kw)
         else:
             a = eao.assets.MultiCommodityContract(name='x', nodes=[A, B], factors_commodities=[-1., .8], min_cap=0., max_cap=2., extra_costs=.2, **kw)
         others = [eao.assets.SimpleContract(name='mA', nodes=A, price='p', min_cap=-5., max_cap=5.),
-                  eao.assets.SimpleContract(name='mB', nodes=B, price='q', min_cap=-1., max_cap=1., extra_costs=.3)]
+                  eao.assets.SimpleContract(name='mB', nodes=B, price='p' if kind in ('simple', 'spread') else 'q', min_cap=-5. if vary else -1., max_cap=5. if vary else 1., extra_costs=.3)]     # (wide enough for x's own limits to bind; for the one-node kinds a second price at the same node, otherwise nothing would trade)
         assets = [a] + others if case.get('first', True) else others + [a]
         return a, eao.portfolio.Portfolio(assets)
     F = lambda name, detail: out.append(fail(name, 'optimization:OptimProblem.__make_periodic__', case, dict(case), detail))
@@ -2070,7 +2174,7 @@ def check_periodic_kinds(case):
     # reference: the non-periodic portfolio problem + equalities between the asset's variables of the same kind at the same
     # position of every period inside one duration
     a0, pf0 = build(False)
-    op0 = pf0.setup_optim_problem(prices, tg)
+    op0 = pf0.setup_optim_problem(prices_avg, tg)        # (limits averaged over the merged steps, as documented)
     m = op0.mapping
     mine = m[m['asset'] == 'x']
     first = mine[~mine.index.duplicated(keep='first')]
@@ -2256,11 +2360,29 @@ def check_optimize_random(case):
             A[r, rng.randrange(n)] = 1.      # (rows without any entry are left to the external solver's presolve, A1: not generated)
     b = np.asarray([float(rng.randint(-3, 4)) for _ in range(m)])
     ct = ''.join(rng.choice('ULSN') for _ in range(m))
+    if case.get('frac'):
+        # integrality matters: unit boxes, knapsack-like rows with fractional right-hand sides, so that the relaxation of a flagged
+        # variable (or a flag on another variable) changes the optimum or the feasibility
+        n = rng.randint(3, 5)
+        m = rng.randint(1, 3)
+        c = np.asarray([float(rng.choice([-5, -4, -3, -2, 2, 3])) for _ in range(n)])
+        l = np.zeros(n)
+        u = np.asarray([float(rng.choice([1, 1, 1, 2])) for _ in range(n)])
+        A = np.asarray([[float(rng.choice([0, 1, 1, 2, 3])) for _ in range(n)] for _ in range(m)]).reshape(m, n)
+        for r in range(m):
+            if not np.any(A[r]):
+                A[r, rng.randrange(n)] = 1.
+        b = np.asarray([float(rng.choice([1.5, 2.5, 3.5, 2.])) for _ in range(m)])
+        ct = 'U' * m
     isb = [case.get('mip', False) and rng.random() < .5 and np.isfinite(l[j]) and np.isfinite(u[j]) for j in range(n)]
     rows = []
     for j in range(n):
+        if case.get('unmapped') and not isb[j] and rng.random() < .35:
+            continue                                     # a variable without any mapping row (as an order outside the horizon has)
         for _ in range(rng.choice([1, 1, 2])):          # duplicated mapping rows
             rows.append(dict(index=j, asset='a', node='n', type='d', time_step=j % 2, var_name='v', bool=isb[j]))
+    if not rows:
+        rows.append(dict(index=0, asset='a', node='n', type='d', time_step=0, var_name='v', bool=isb[0]))
     rng.shuffle(rows) if case.get('shuffle') else None
     mp = pd.DataFrame(rows).set_index('index')
     if not case.get('mip'):
@@ -2284,7 +2406,7 @@ def check_optimize_random(case):
         else:
             cons.append(LinearConstraint(A[r:r + 1], b[r], b[r]))
     feasible_bounds = bool(np.all(lo <= hi))
-    ref = milp(c, constraints=cons or None, bounds=Bounds(lo, hi), integrality=integ) if feasible_bounds else None
+    ref = milp(c, constraints=cons or None, bounds=Bounds(lo, hi), integrality=integ, options=dict(presolve=False)) if feasible_bounds else None     # (presolve off: see below)
     ref_ok = ref is not None and ref.status == 0
     if ref is not None and ref.status == 3:
         return out          # unbounded problem (possible with one-sided variables): neither side has an optimum to compare
@@ -2309,7 +2431,11 @@ def check_optimize_random(case):
     if abs(res.value + float(c @ x)) > 1e-6 * max(1., abs(res.value)):
         F('C03.value_is_minus_cost_times_vector', f'value {res.value} vs {-float(c @ x)}')
     if not ref_ok:
-        F('C03.success_only_if_feasible', f'optimiser returns a solution; scipy status {None if ref is None else ref.status} (no feasible point)')
+        # the reference finds no feasible point: the returned vector itself decides (checked above against every bound, row and flag); a
+        # vector that passes IS a feasible point, then the reference is wrong (HiGHS presolve with mixed integrality, scipy 1.14) and no
+        # comparison is made
+        if out:
+            F('C03.success_only_if_feasible', f'optimiser returns a solution; scipy status {None if ref is None else ref.status} (no feasible point)')
     elif res.value < -ref.fun - 1e-5 * max(1., abs(ref.fun)):
         F('C03.no_better_feasible_point', f'value {res.value} < reference optimum {-ref.fun}')
     return out
